@@ -77,3 +77,28 @@ func VerifC08ConcurrentTrials() {
 	verifExec(cb, func() error { admitted = true; return nil })
 	verifrt.Assert(cb.State() == StateClosed && admitted, "two concurrent successful trials (max_requests = success_threshold = 2) close the breaker; it never stays half-open with its budget used up")
 }
+
+// VerifC07StragglerHalfOpen: a request admitted while the breaker was closed
+// is still in flight when the breaker trips, the timeout elapses and a trial
+// request is admitted (half-open). The straggler then completes successfully
+// while the trial is still in flight: it is not a trial request, so its success
+// must not close the breaker (success_threshold 1: the breaker would close
+// without a single successful trial).
+func VerifC07StragglerHalfOpen() {
+	cb := NewCircuitBreaker(Settings{Name: "verif", MaxRequests: 1, Interval: time.Minute, Timeout: time.Second, FailureThreshold: 1, SuccessThreshold: 1})
+	var releaseA, releaseC int32
+	verifrt.Go(func() { verifExec(cb, func() error { verifrt.WaitFor(&releaseA); return nil }) })
+	verifrt.Settle() // the straggler has been admitted (closed) and is in flight
+	verifExec(cb, func() error { return verifErrBoom })
+	verifrt.Assert(cb.State() == StateOpen, "one failure opens the breaker (failure_threshold 1)")
+	verifrt.Advance(2 * time.Second)
+	verifrt.Go(func() { verifExec(cb, func() error { verifrt.WaitFor(&releaseC); return nil }) })
+	verifrt.Settle() // the trial request has been admitted (half-open) and is in flight
+	verifrt.Assert(cb.State() == StateHalfOpen, "after the timeout a trial request is admitted: half-open")
+	atomic.StoreInt32(&releaseA, 1)
+	verifrt.Settle() // the straggler completes successfully
+	verifrt.Assert(cb.State() == StateHalfOpen, "the breaker closes only after success_threshold TRIAL requests succeed: a straggler admitted before the trip does not count")
+	atomic.StoreInt32(&releaseC, 1)
+	verifrt.WaitAll()
+	verifrt.Assert(cb.State() == StateClosed, "the successful trial closes the breaker")
+}
